@@ -68,7 +68,7 @@ def run_one(v, repo, props):
         for prop in props:
             env = dict(os.environ, SKVERIF_EVIDENCE_DIR=os.path.join(tmp, "_ev"), PYTHONPATH=VERIF)
             r = subprocess.run([sys.executable, "-m", "skverif", "check", prop, "--tier", "quick", "--repo", tmp], capture_output=True, text=True, env=env, cwd=VERIF, timeout=600)
-            out[prop] = (r.returncode, r.stdout[-6000:] + r.stderr[-2000:])
+            out[prop] = (r.returncode, r.stdout[-40000:] + r.stderr[-2000:])
         return {"id": v["id"], "status": "ran", "results": out}
     finally:
         shutil.rmtree(tmp, ignore_errors=True)
